@@ -1497,6 +1497,106 @@ silent_all("cloner-rename", [
     {"file": "inprocgrpc/cloner.go", "old": "cloneFn", "new": "cl", "all": True},
 ], "cloner internals renamed", ["C18", "C06"])
 
+silent_all("probe-as-switch", [
+    {"file": "inprocgrpc/in_process.go", "old": """	err := s.recvMsgLocked(mCopy, false)
+	if err == nil {
+		s.last = &frame{err: status.Error(codes.Internal, "method should return 1 response message but server sent >1")}
+		s.state = streamStateClosed
+		return s.last.err
+	}
+	if err != io.EOF {
+		// if server sent a failure after the single message, the failure takes precedence
+		return err
+	}
+	return nil""", "new": """	switch err := s.recvMsgLocked(mCopy, false); err {
+	case nil:
+		s.last = &frame{err: status.Error(codes.Internal, "method should return 1 response message but server sent >1")}
+		s.state = streamStateClosed
+		return s.last.err
+	case io.EOF:
+		return nil
+	default:
+		// if server sent a failure after the single message, the failure takes precedence
+		return err
+	}"""},
+], "probe discrimination written as a switch", ["C08", "C02", "C04", "C01"])
+silent_all("creds-operands-swapped", [
+    {"file": "internal/call_options.go", "old": "if copts.Creds.RequireTransportSecurity() && !isChannelSecure {", "new": "if !isChannelSecure && copts.Creds.RequireTransportSecurity() {"},
+], "operands of && swapped", ["C13"])
+silent_all("renderer-code-once", [
+    {"file": "httpgrpc/server.go", "old": """	if (st.Code() == codes.Canceled || st.Code() == codes.DeadlineExceeded) && ctx.Err() != nil {
+		http.Error(w, "Client Closed Request", 499)
+		return
+	}
+	code := httpStatusFromCode(st.Code())""", "new": """	grpcCode := st.Code()
+	if ctx.Err() != nil && (grpcCode == codes.Canceled || grpcCode == codes.DeadlineExceeded) {
+		http.Error(w, "Client Closed Request", 499)
+		return
+	}
+	code := httpStatusFromCode(grpcCode)"""},
+], "status code read once; operands reordered", ["C14"])
+silent_all("decorator-index-loops", [
+    {"file": "intercept.go", "old": """		for i, md := range svcDesc.Methods {
+			origHandler := md.Handler""", "new": """		for i := range svcDesc.Methods {
+			md := svcDesc.Methods[i]
+			origHandler := md.Handler"""},
+], "range-with-value replaced by index loop + per-iteration copy", ["C16", "C12"])
+silent_all("wrapper-via-local", [
+    {"file": "inprocgrpc/in_process.go", "old": "	newCtx := context.Context(noValuesContext{ctx})", "new": "	base := noValuesContext{ctx}\n	var newCtx context.Context = base"},
+], "wrapper constructed through a local", ["C10", "C04"])
+silent_all("ctx-err-via-local", [
+    {"file": "inprocgrpc/in_process.go", "old": """		case <-ctx.Done():
+			return internal.TranslateContextError(ctx.Err())
+		}
+	}
+}""", "new": """		case <-ctx.Done():
+			ctxErr := ctx.Err()
+			return internal.TranslateContextError(ctxErr)
+		}
+	}
+}"""},
+], "ctx.Err() bound to a local before translation", ["C04", "C02", "C08"])
+silent_all("stream-info-in-closure", [
+    {"file": "httpgrpc/server.go", "old": """	info := &grpc.StreamServerInfo{
+		FullMethod:     fmt.Sprintf("/%s/%s", serviceName, desc.StreamName),
+		IsClientStream: desc.ClientStreams,
+		IsServerStream: desc.ServerStreams,
+	}
+	return func(w http.ResponseWriter, r *http.Request) {""", "new": """	fullMethod := fmt.Sprintf("/%s/%s", serviceName, desc.StreamName)
+	return func(w http.ResponseWriter, r *http.Request) {
+		info := &grpc.StreamServerInfo{
+			FullMethod:     fullMethod,
+			IsClientStream: desc.ClientStreams,
+			IsServerStream: desc.ServerStreams,
+		}"""},
+], "stream info built per request from a precomputed name", ["C16", "C11", "C04"])
+silent_all("finish-guard-clause", [
+    {"file": "inprocgrpc/in_process.go", "old": """	s.trailers = nil
+
+	if err != nil {
+		_ = writeMessage(s.ctx, nil, s.responses, frame{err: err})
+	}
+}""", "new": """	s.trailers = nil
+
+	if err == nil {
+		return
+	}
+	_ = writeMessage(s.ctx, nil, s.responses, frame{err: err})
+}"""},
+], "error frame behind a guard clause", ["C02", "C03", "C05"])
+silent_all("size-check-order", [
+    {"file": "httpgrpc/io.go", "old": """	if sz < 0 {
+		return fmt.Errorf("bad size preface: size cannot be negative: %d", sz)
+	} else if sz > maxMessageSize {
+		return fmt.Errorf("bad size preface: indicated size is too large: %d", sz)
+	}""", "new": """	if sz > maxMessageSize {
+		return fmt.Errorf("bad size preface: indicated size is too large: %d", sz)
+	}
+	if sz < 0 {
+		return fmt.Errorf("bad size preface: size cannot be negative: %d", sz)
+	}"""},
+], "the two size checks in the other order", ["C07", "C01"])
+
 
 def main():
     if os.path.isdir(OUT):
